@@ -94,6 +94,15 @@ def const_stores(fn, attr):
     return out
 
 
+def through_local(fn, v):
+    """a plain local bound exactly once in fn stands for its definition"""
+    if isinstance(v, ast.Name):
+        defs = [m for m in walk_no_nested(fn) if isinstance(m, ast.Assign) and len(m.targets) == 1 and isinstance(m.targets[0], ast.Name) and m.targets[0].id == v.id]
+        if len(defs) == 1:
+            return defs[0].value
+    return v
+
+
 def open_mode_arg(call):
     """the mode argument of <path>.open(...) - positional or keyword"""
     if call.args:
@@ -125,7 +134,7 @@ def handle_discipline(ct: Container, rep, rule="handle-discipline"):
                 for t in (st.targets if isinstance(st, ast.Assign) else [st.target]):
                     if is_self_attr(t, ct.handle):
                         n += 1
-                        v = st.value
+                        v = through_local(f.node, st.value)
                         okk = f.name == "__enter__" and isinstance(v, ast.Call) and isinstance(v.func, ast.Attribute) and v.func.attr == "open" \
                             and norm(v.func.value) == "self.file_path" and len(v.args) + len(v.keywords) == 1 and open_mode_arg(v) is not None \
                             and norm(ct.facts("__enter__").resolve(open_mode_arg(v))) == "self._mode"
@@ -244,8 +253,9 @@ class Model:
             for st in walk_no_nested(f.node):
                 if isinstance(st, (ast.Assign, ast.AnnAssign)):
                     t = st.targets[0] if isinstance(st, ast.Assign) else st.target
-                    if is_self_attr(t, ct.handle) and isinstance(st.value, ast.Call) and isinstance(st.value.func, ast.Attribute) and st.value.func.attr == "open":
-                        a = open_mode_arg(st.value)
+                    val = through_local(f.node, st.value)
+                    if is_self_attr(t, ct.handle) and isinstance(val, ast.Call) and isinstance(val.func, ast.Attribute) and val.func.attr == "open":
+                        a = open_mode_arg(val)
                         out["open"] = ("field" if a is not None and norm(a) == "self._mode" else (a.value if isinstance(a, ast.Constant) else "?"), not on_every_path(f.node, st))
                 if isinstance(st, ast.Expr) and isinstance(st.value, ast.Call) and norm(st.value.func) == f"self.{ct.handle}.close":
                     in_finally = any(isinstance(t, ast.Try) and any(x is st for b in t.finalbody for x in ast.walk(b)) for t in f.node.body)
